@@ -524,13 +524,14 @@ func (h *harness) runExhaustive(t *testing.T) {
 
 // ---------------------------------------------------------------- family: random composite types
 
-var randomEntries = []string{"json", "json", "json", "jsonreader", "yaml", "toml", "key", "keynative", "jsonmap", "custom", "strvals", "formlike", "pathlike", "headerlike", "lower", "conf"}
+var randomEntries = []string{"json", "json", "json", "jsonreader", "yaml", "toml", "key", "keynative", "jsonmap", "custom", "strvals", "formlike", "pathlike", "headerlike", "lower", "conf",
+	"yamlreader", "tomlreader", "valuer", "confyaml", "conftoml"}
 
 func (h *harness) runRandom(t *testing.T, n int) {
 	h.run(t, "random", n, func(c *kit.Case) {
 		r := c.R
 		e := entries[kit.Choose(r, randomEntries)]
-		g := &typeGen{r: r, e: e, tagKey: e.Ctx.TagKey, maxDeep: 2, noIgnore: e.Name == "conf"}
+		g := &typeGen{r: r, e: e, tagKey: e.Ctx.TagKey, maxDeep: 2, noIgnore: e.Ctx.Name == "conf"}
 		if kit.Thorough() && r.Chance(0.3) {
 			g.maxDeep = 3
 		}
@@ -1016,6 +1017,9 @@ func TestVerifC08(t *testing.T) {
 	h.runRandom(t, kit.N(10000, 250000))
 	h.runHTTP(t, kit.N(4000, 60000))
 	h.runDamaged(t, kit.N(2500, 30000))
+	h.runNumShapes(t)
+	h.runSepVals(t)
+	h.runInherit(t, kit.N(1500, 30000))
 	kit.Obs("inputs_written_to_disk_before_the_call", h.fc.writes)
 	kit.End()
 }
